@@ -15,6 +15,8 @@ package mpb
 //@   requires container != nil && bs != nil
 //@   ensures  result != nil && fresh(result)
 //@   ensures  result.priority == bs.priority && result.container == container
+//@   ensures  counted: called("(*sync.WaitGroup).Add") == old(called("(*sync.WaitGroup).Add")) + 1 && calledWith("(*sync.WaitGroup).Add", 1) == 1 && spawned("(*Bar).serve") == old(spawned("(*Bar).serve")) + 1
+//@              && when("(*sync.WaitGroup).Add") < when("go (*Bar).serve") // the bar is counted before its goroutine exists: a Wait that runs first would otherwise see no bar
 //@   ensures  buffered: cap(result.frameCh) == 1 // flush returns at the first failed frame: every other bar must still be able to deposit its frame and see the cancellation
 
 // ---------------------------------------------------------------------------------------
@@ -1219,6 +1221,8 @@ package mpb
 //@   ensures  quiet: s.manualRC == nil && !s.autoRefresh ==> spawned("(*pState).autoRefreshListener") == old(spawned("(*pState).autoRefreshListener")) && spawned("(*pState).manualRefreshListener") == old(spawned("(*pState).manualRefreshListener")) // no listener, so nothing ever asks for a frame: no bar rows, no cursor controls
 //@   ensures  terminal: s.manualRC == nil && returned("(*Writer).IsTerminal", 0) ==> s.autoRefresh // a terminal is always refreshed
 //@   ensures  served: spawned("(*Progress).serve") == old(spawned("(*Progress).serve")) + 1 && spawned("(heapManager).run") == old(spawned("(heapManager).run")) + 1
+//@   ensures  counted: called("(*sync.WaitGroup).Add") == old(called("(*sync.WaitGroup).Add")) + 1 && calledWith("(*sync.WaitGroup).Add", 1) == 1
+//@              && when("(*sync.WaitGroup).Add") < when("go (*Progress).serve") // counted before the goroutine exists: a Wait that runs first would otherwise return while the container still accepts writes
 //@   assumes  stdout: global("os.Stdout") != nil && global("io.Discard") != nil
 //@   loop 1   invariant s != nil && s.iterDrop != nil && s.renderReq != nil && s.queueBars != nil && s.ctx != nil && fresh(s) && s.delayRC != s.iterDrop && !isext(s.iterDrop)
 //@   loop 1   invariant s.output != nil && s.debugOut != nil
@@ -1288,7 +1292,7 @@ package mpb
 //@   ensures  set: s.waitBar == bar
 
 //@ func (*Progress).Add$1
-//@   props    C05 C17 C06 C02 C18
+//@   props    C05 C17 C06 C02 C18 C03 C04
 //@   requires ps != nil && p != nil && okfiller(filler) && ch != nil && !closed(ch) && !closed(ps.hm) && ps.idCount < 1<<62
 //@   requires parked: forall(k, has(ps.queueBars, k) ==> ps.queueBars[k] != nil)
 //@   loop 1   invariant key != nil && bar != nil && fresh(bar) && bs != nil && fresh(bs) && bs.waitBar != nil && !bs.waitBar.retired
@@ -1411,6 +1415,7 @@ package mpb
 //@   loop 1   ensures once: spawned("(*Bar).serve$1$1") - iter(spawned("(*Bar).serve$1$1")) == called("(*sync.WaitGroup).Add") - iter(called("(*sync.WaitGroup).Add"))
 //@              && spawned("(*Bar).serve$1$1") - iter(spawned("(*Bar).serve$1$1")) <= 1 && called("unwrap") == iter(called("unwrap")) + 1
 //@              && (hasType(returned("unwrap", 0), "decor.ShutdownListener") == (spawned("(*Bar).serve$1$1") == iter(spawned("(*Bar).serve$1$1")) + 1))
+//@   loop 1   ensures ordered: spawned("(*Bar).serve$1$1") == iter(spawned("(*Bar).serve$1$1")) + 1 ==> when("(*sync.WaitGroup).Add") < when("go (*Bar).serve$1$1") // counted before it is started
 //@   ensures  every: called("unwrap") == old(called("unwrap")) + len(group)
 
 // bsOk is only ever closed, by the bar's own goroutine, after the final state has been
@@ -1494,7 +1499,7 @@ package mpb
 //@   ensures  untildone: recvd(p.done) == old(recvd(p.done)) + 1
 
 //@ func (*Progress).serve
-//@   props    C03 C04 C13 C14 C15 C05 C02
+//@   props    C03 C04 C13 C14 C15 C05 C02 C18
 //@   requires p != nil && s != nil && cw != nil && wkey(cw.out) != cw.Buffer && p.cancel != nil && s.debugOut != nil
 //@   requires s.iterDrop != p.done && s.iterDrop != s.delayRC
 //@   assumes  owner: !closed(s.hm) && !closed(s.iterDrop)
